@@ -15,7 +15,7 @@ import numpy as np
 LEVEL = "exploration"
 MANIFEST = {
     "level": "exploration",
-    "technique": "contract-based run-time checking (bounded) of the note/rest array contracts on the real functions, with exhaustive closed evaluation of the tie-chain sums, the two-pass sort lemma and create_divs_from_beats over small domains; structured-array construction is outside the SMT subset",
+    "technique": "contract-based: SMT contract on GenericNote.duration_tied/end_tied (tie chains of 1..4 notes, arbitrary times); run-time checking (bounded) of the note/rest array contracts on the real functions, with exhaustive closed evaluation of the tie-chain sums, the two-pass sort lemma and create_divs_from_beats over small domains; structured-array construction is outside the SMT subset",
     "text": "One row per sounding note (tie chains merged, grace notes kept with zero duration), onset/duration in divisions = timeline, quarters/beats = exact maps, pitch, voice, id, every optional column = what the score states at the onset, rows ordered by onset then pitch; score-level arrays = union rescaled to the lcm with part-prefixed ids on request; rest arrays; note array -> score -> note array. All on generated parts/scores for all 2^7 option combinations (quick: a covering subset).",
     "note": "bounded only; float32 columns compared with 1e-5 tolerance; parts with several divisions values are excluded from include_divs_per_quarter (documented as unsupported)",
 }
@@ -91,6 +91,53 @@ def closed_divs_from_beats():
                     return False, n, {"input": [[str(o) for o in on], str(dur)], "what": "duration %s represented as %d/%d" % (dur, x, divs)}
     return True, n, ""
 
+
+# ------------------------------------------------------------------------------------------------ P: tie chains
+def _tie_chain_contracts():
+    """GenericNote.duration_tied / end_tied on chains of 1..4 tied notes with arbitrary (symbolic, not necessarily contiguous) start and
+    end times: the sum of the members' own durations, and the end point of the last member"""
+    from pyv.contracts import Contract, Int, ListOf, TupleOf
+
+    def build(ip, a):
+        sc = _sc()
+        tps, notes = [], []
+        for (s, e) in a.times:
+            if ip is None:
+                ts, te = sc.TimePoint(s), sc.TimePoint(e)
+                n = sc.Note.__new__(sc.Note)
+                n.__dict__.update(start=ts, end=te, tie_next=None, tie_prev=None)
+            else:
+                ts, te = ip.new_symobj(sc.TimePoint, t=s), ip.new_symobj(sc.TimePoint, t=e)
+                n = ip.new_symobj(sc.Note, start=ts, end=te, tie_next=None, tie_prev=None)
+            notes.append(n)
+            tps.append((ts, te))
+        for x, y in zip(notes, notes[1:]):
+            if ip is None:
+                x.__dict__["tie_next"], y.__dict__["tie_prev"] = y, x
+            else:
+                ip.setattr(x, "tie_next", y)
+                ip.setattr(y, "tie_prev", x)
+        return notes, tps
+
+    def call(ip, fobj, a):
+        notes, tps = build(ip, a)
+        if ip is None:
+            return notes[0].duration_tied, notes[0].end_tied, tps
+        return ip.getattr(notes[0], "duration_tied"), ip.getattr(notes[0], "end_tied"), tps
+
+    def ens(a, r):
+        total = 0
+        for (s, e) in a.times:
+            total = total + (e - s)
+        return (r[0] == total) & (r[1] is r[2][-1][1])
+    out = []
+    for n in (1, 2, 3, 4):
+        out.append(Contract("C05", "partitura.score.GenericNote.duration_tied", [("times", ListOf(TupleOf(Int(0, None), Int(0, None)), n))],
+                            call=call, ensures=[("sum_of_the_chain_members_durations_and_end_of_the_last_member", ens)], name="GenericNote.duration_tied/end_tied[chain of %d]" % n))
+    return out
+
+
+CONTRACTS = _tie_chain_contracts()
 
 CLOSED = [("tie_chain_sums_and_notes_tied", closed_tie_chain_sums), ("two_pass_sort_is_lexicographic", closed_two_pass_sort),
           ("create_divs_from_beats_exact", closed_divs_from_beats)]
